@@ -1,13 +1,16 @@
 #!/bin/bash
 # runs each seeded change against the check of the property it targets (scratch worktree, never /repo) and records the outcome in meta.json
+# usage: tools_seeded_matrix.sh [tier] [glob under seeded/, default *] [parallel jobs, default 2]
 cd /verif
-for d in seeded/*/; do
+TIER=${1:-quick}; PAT=${2:-*}; JOBS=${3:-2}
+one() {
+  d=$1; TIER=$2
   n=$(basename $d); id=${n%%-*}
-  out=$(LINES_MAX=400 ./tools_mutant.sh $d/patch.diff $id ${1:-quick} 2>&1)
+  out=$(LINES_MAX=400 ./tools_mutant.sh $d/patch.diff $id $TIER 2>&1)
   ex=$(echo "$out" | grep -o 'exit=[0-9]*' | tail -1)
   nv=$(echo "$out" | grep -c '^VIOLATION')
   sm=$(echo "$out" | grep '^\[C' | tail -1)
-  .venv/bin/python - "$d/meta.json" "$id" "$ex" "$nv" "$sm" "${1:-quick}" <<'PY'
+  .venv/bin/python - "$d/meta.json" "$id" "$ex" "$nv" "$sm" "$TIER" <<'PY'
 import json, sys
 p, pid, ex, nv, sm, tier = sys.argv[1:7]
 m = json.load(open(p))
@@ -16,4 +19,6 @@ m["detection"][tier] = dict(check=pid, exit=ex, violation_lines=int(nv), detecte
 json.dump(m, open(p, "w"), indent=1)
 PY
   echo "$n $ex violations=$nv"
-done
+}
+export -f one
+ls -d seeded/$PAT/ | xargs -P $JOBS -I{} bash -c 'one {} '"$TIER"
